@@ -658,6 +658,11 @@ class UpdateCollection(Message):
             # MP_REACH_NLRI contains nexthop - use iter_routed() for RoutedNLRI
             announces.extend(reach.iter_routed())
 
+        # RFC 7606 section 2: treat-as-withdraw, every route of the UPDATE is handled as withdrawn
+        if Attribute.CODE.INTERNAL_TREAT_AS_WITHDRAW in attributes:
+            withdraws.extend(routed.nlri for routed in announces)
+            announces = []
+
         return cls(announces, withdraws, attributes)
 
     # EOR prefix for non-IPv4-unicast families
